@@ -508,6 +508,8 @@ pub(crate) fn solve_expression(
                         {
                             x > y as i64
                         }
+                        // NOTE: An unsigned value that does not fit an i64 is above every i64
+                        (Value::UInt(_), BoolSym::GreaterThan, Value::Int(_)) => true,
                         (_, BoolSym::GreaterThan, _) => false,
                         (Value::Float(x), BoolSym::GreaterThanOrEqual, Value::Float(y)) => x >= y,
                         (Value::Int(x), BoolSym::GreaterThanOrEqual, Value::Int(y)) => x >= y,
@@ -522,6 +524,7 @@ pub(crate) fn solve_expression(
                         {
                             x >= y as i64
                         }
+                        (Value::UInt(_), BoolSym::GreaterThanOrEqual, Value::Int(_)) => true,
                         (_, BoolSym::GreaterThanOrEqual, _) => false,
                         (Value::Float(x), BoolSym::LessThan, Value::Float(y)) => x < y,
                         (Value::Int(x), BoolSym::LessThan, Value::Int(y)) => x < y,
@@ -536,6 +539,7 @@ pub(crate) fn solve_expression(
                         {
                             x < y as i64
                         }
+                        (Value::Int(_), BoolSym::LessThan, Value::UInt(_)) => true,
                         (_, BoolSym::LessThan, _) => false,
                         (Value::Float(x), BoolSym::LessThanOrEqual, Value::Float(y)) => x <= y,
                         (Value::Int(x), BoolSym::LessThanOrEqual, Value::Int(y)) => x <= y,
@@ -550,6 +554,7 @@ pub(crate) fn solve_expression(
                         {
                             x <= y as i64
                         }
+                        (Value::Int(_), BoolSym::LessThanOrEqual, Value::UInt(_)) => true,
                         (_, BoolSym::LessThanOrEqual, _) => false,
                         _ => unreachable!(),
                     };
